@@ -87,11 +87,15 @@ def identities():
             self.shape, self.dtype = shape, dtype
     vals = [np.zeros((2, 3), np.float32), np.zeros((2,), np.float32), np.zeros((2, 3), np.int32), jnp.zeros((2, 3)), jnp.zeros((2,), jnp.int32),
             jnp.zeros(()), jnp.float32(1.0), np.float32(1.0), np.zeros(()), 1, 1.5, True, 1j, "s", None, Duck((2, 3), "float32"), [1.0, 2.0],
-            jax.random.key(0), jax.random.PRNGKey(0), jnp.zeros((), jnp.int32)]
+            jax.random.key(0), jax.random.PRNGKey(0), jnp.zeros((), jnp.int32),
+            np.float64(1.5), np.complex128(1j), np.int64(3), np.zeros((2, 3), np.float32).view(type("SubArr", (np.ndarray,), {}))]
     vec = lambda ann: [R.verdict(lambda: R.matches(v, ann)) for v in vals]
     TB = typing.TypeVar("TB", bound=np.ndarray)
     TC = typing.TypeVar("TC", np.ndarray, jax.Array)
     TF_ = typing.TypeVar("TF_")
+    # constraints that are themselves unions (both spellings)
+    TCU = typing.TypeVar("TCU", typing.Union[np.ndarray, Duck], jax.Array)
+    TCU2 = typing.TypeVar("TCU2", np.ndarray | Duck, jax.Array)
     out = []
 
     def law(name, lhs, rhs):
@@ -111,6 +115,10 @@ def identities():
             law(f"union|:{dn}[ndarray|Array,'{s}']", lambda: D[np.ndarray | jax.Array, s], lambda: typing.Union[D[np.ndarray, s], D[jax.Array, s]])
             law(f"typevar-bound:{dn}[TB,'{s}']", lambda: D[TB, s], lambda: D[np.ndarray, s])
             law(f"typevar-constraints:{dn}[TC,'{s}']", lambda: D[TC, s], lambda: typing.Union[D[np.ndarray, s], D[jax.Array, s]])
+            law(f"typevar-union-constraint:{dn}[TCU,'{s}']", lambda: D[TCU, s],
+                lambda: typing.Union[D[np.ndarray, s], D[Duck, s], D[jax.Array, s]])
+            law(f"typevar-union-constraint|:{dn}[TCU2,'{s}']", lambda: D[TCU2, s],
+                lambda: typing.Union[D[np.ndarray, s], D[Duck, s], D[jax.Array, s]])
             law(f"typevar-free:{dn}[T,'{s}']", lambda: D[TF_, s], lambda: D[typing.Any, s])
             law(f"union-scalar:{dn}[Union[ndarray,float,int],'{s}']", lambda: D[typing.Union[np.ndarray, float, int], s],
                 lambda: (lambda parts: typing.Union[tuple(parts)] if len(parts) > 1 else parts[0])(
